@@ -43,9 +43,9 @@ def with_b11(family, variants):
     return variants
 
 
-def job(family, profile, quick, thorough, variants=None, mode="lockstep", san="", shards=4):
+def job(family, profile, quick, thorough, variants=None, mode="lockstep", san="", shards=4, valgrind=False):
     return {"family": family, "variants": with_b11(family, variants) if variants else variants_of(family), "profile": profile, "quick": quick,
-            "thorough": thorough, "san": san, "shards": shards, "mode": mode}
+            "thorough": thorough, "san": san, "shards": shards, "mode": mode, "valgrind": valgrind}
 
 
 def jobs(families, profiles, quick, thorough, variants=None, mode="lockstep"):
@@ -139,7 +139,10 @@ PROPS = {
     "C12": {
         "jobs": jobs(["order_rows", "nest2_mixed", "conflict_ortho"], ["throws"], 600, 30000)
                 + jobs(["nest3", "completion_chain", "queue_flat", "queue_nested", "defer_basic", "fork_entry", "exit_points", "history_always"],
-                       ["throws"], 600, 30000, variants=ALLV),
+                       ["throws"], 600, 30000, variants=ALLV)
+                # "the outcome does not depend on uninitialised data": the same plans under valgrind (one plan per process)
+                + [job("completion_chain", "throws", 12, 300, variants=["M", "B"], valgrind=True),
+                   job("nest2_mixed", "throws", 8, 200, variants=["M", "B"], valgrind=True)],
         "nontrivial": ["throw"],
         "rule": "fault injection: 1-2 exceptions per faulty op thrown from a guard / exit / action / entry position chosen among the "
                 "callbacks the op actually reaches (dry run on the model), plus posts, under all four switch policies; lockstep + "
